@@ -13,6 +13,18 @@ func EvaluateInsert(q sql.InsertStatement, rm RelationManager) (int, error) {
 	cols := q.InsertColumnsAndSource.InsertColumnList.ColumnNames
 	vals := q.InsertColumnsAndSource.QueryExpression.(sql.TableValueConstructor).TableValueConstructorList
 
+	// refuse the statement before any of its rows is stored if one of them
+	// is invalid: a statement that returns an error changes nothing
+	if checker, ok := rm.(interface {
+		CheckInsert(tableName string, cols []string, vals []interface{}) error
+	}); ok {
+		for _, tvc := range vals {
+			if err := checker.CheckInsert(tbl, cols, tvc.RowValueConstructorList); err != nil {
+				return 0, err
+			}
+		}
+	}
+
 	var batch storage.WALBatch
 
 	count := 0
